@@ -60,6 +60,15 @@ def cases(tier, seed):
                         for nops in (2, 3):
                             for dt, fam in DTF[:3]:
                                 yield {'op': 'cat', 'N': N, 'R': R, 'ax': ax, 'nops': nops, 'dt': dt, 'fam': fam, 's': salt}
+    # cat on uniform structures (all modes equal, all interior ranks equal, operands too): every core away from the axis has the
+    # same shape, so anything keyed or cached by core shape collides (the distinct-size alphabet above never produces this)
+    for d in (3, 4, 5):
+        for n in (2, 3):
+            for r in (1, 2):
+                for ax in range(d):
+                    for nops in (2, 3):
+                        for dt, fam in DTF[:3]:
+                            yield {'op': 'cat', 'N': [n] * d, 'R': [1] + [r] * (d - 1) + [1], 'ax': ax, 'nops': nops, 'dt': dt, 'fam': fam, 's': salt, 'uniform': True}
     # operators: diag (square and rectangular), pad, conj, clone
     PM, PN = (2, 3, 2), (3, 2, 4)
     for d in range(1, 3 if tier == 'quick' else 4):
@@ -138,6 +147,8 @@ def run_case(c):
             Nj = list(N)
             Nj[ax] = N[ax] + j          # distinct sizes on the axis
             Rj = space.ranks_binary(d, offset=j)[min(j, len(space.ranks_binary(d)) - 1)] if d > 1 else [1, 1]
+            if c.get('uniform'):
+                Rj = [1] + [c['R'][1] + j] * (d - 1) + [1]
             sj = space.tensor_struct(Nj, Rj, dt, fam)
             tj, cj = build(sj, 'op%d' % j, c['s'])
             ops.append(tj)
